@@ -108,7 +108,10 @@ def plan(ctx):
     registry.import_all()
     names = sorted(registry(n).Meta.name for n in registry.all())
     pool = fam.examples() + fam.M + fam.Q + fam.MQ
-    special = ['Ma:MKab', 'KMaMb:Mc', 'a:NFn:Gm:SxFx', 'LMa:LLMa', 'b:La:LMb', 'MSxFx:SxMFx']
+    special = ['Ma:MKab', 'KMaMb:Mc', 'a:NFn:Gm:SxFx', 'LMa:LLMa', 'b:La:LMb', 'MSxFx:SxMFx',
+               # a necessity node re-applied next to several possibility nodes; a nested necessity
+               # behind one of two equally ranked possibility nodes
+               'e:La:Mb:Mc:Md', 'e:Ma:MLLKbNb', 'e:LLa:Mb:Mc']
     units = []
     for name in names:
         sel = fam.select(pool, 12 if ctx.quick else 80, ctx.seed + 3, name) + special
@@ -143,7 +146,7 @@ def run(ctx):
     rep.coverage = dict(
         states=paths, transitions=trans, traces_validated_against_impl=0, samples=samples,
         logic_argument_pairs=pairs, pairs_with_limit_outcomes_only=limit_only,
-        bounds=dict(arguments='12 per logic by seed + 6 fixed' if ctx.quick else '80 per logic + 6 fixed + 20 random',
+        bounds=dict(arguments='12 per logic by seed + 9 fixed' if ctx.quick else '80 per logic + 6 fixed + 20 random',
                     options='both flags symbolic', call_mode='build | step loop (symbolic pick)',
                     premises='original, reversed, rotated, first premise duplicated front/back (symbolic pick)',
                     tie_break_seeds=2 if ctx.quick else 6, max_steps=400),
